@@ -1,10 +1,12 @@
 package main
 
-// Driver "window" (C06, probe): a request is routed twice — injectRequestInfoToCtx decides the pool key,
-// DialContext -> CreateConnection looks the route up again.  If a route for the host appears between
-// the two, a connection to its backend is pooled under the bare-host key that requests WITHOUT any
-// route use.  This probe races requests against Register and then checks whether, after UnRegister,
-// a request for which no route exists is answered by the former backend.
+// Driver "window" (C06): requests overtaken by a Register between their routing decision
+// (injectRequestInfoToCtx: route config + pool key) and their dial, replayed deterministically with a
+// gate in front of Transport.DialContext (installed through the verif accessor VerifTransport).
+// Since repair 4027c37 the dial uses the route config chosen at routing time; before it, the second
+// look-up pooled a connection to ANOTHER route's backend under the first route's key (F-C06d):
+// GET /public served by the /admin backend, unrouted requests served by an unregistered backend.
+// The observed histories are compared with Model/HttpPool.v (HBeginRaced) and the specification.
 
 import (
 	"context"
@@ -250,7 +252,27 @@ func runWindow(cfg *hx.RunCfg) error {
 				gated = "REACHED-FORMER-BACKEND: no route registered for h.test, yet the request was answered 200 by backend 1 over the connection pooled under the bare-host key"
 			}
 		case st := <-res:
+			// repaired code: a request that had no route when it was routed is not dialled at all
 			gated = fmt.Sprintf("first request ended with %d", st)
+			if st != 404 {
+				return fmt.Errorf("gated replay: overtaken unrouted request ended with %d", st)
+			}
+			caseOps = append(caseOps, fmt.Sprintf("(HBeginRaced 1 0 0 %s %s [] true (HRegister %s [] [] 1), HNotFound)", hh, hx.HxS("/"), hh))
+			rp.UnRegister(rc)
+			caseOps = append(caseOps, fmt.Sprintf("(HUnRegister %s [] [], HDone)", hh))
+			st2, err := do(900002, false) // no route registered
+			if err != nil {
+				return err
+			}
+			switch st2 {
+			case 404:
+				caseOps = append(caseOps, fmt.Sprintf("(HBegin 2 0 0 %s %s [] true, HNotFound)", hh, hx.HxS("/")))
+			case 200:
+				caseOps = append(caseOps, fmt.Sprintf("(HBegin 2 0 0 %s %s [] false, HReached 1)", hh, hx.HxS("/")))
+			default:
+				return fmt.Errorf("gated replay: status %d", st2)
+			}
+			gated += fmt.Sprintf("; after UnRegister a request to h.test ended with %d", st2)
 		}
 		release.Store(make(chan struct{}))
 	}
@@ -308,7 +330,8 @@ func runWindow(cfg *hx.RunCfg) error {
 	cf := &hx.CaseFile{
 		Imports: "From FRP Require Import Corr.C06.\n",
 		Typ:     "case",
-		Tail: "Definition M := Eval vm_compute in mismatches check_case_model_only cases.\nPrint M.\n" +
+		Tail: "Definition M := Eval vm_compute in mismatches check_case cases.\nPrint M.\n" +
+			"Definition NRACED := Eval vm_compute in sum_cases (http_counter 5) cases.\nPrint NRACED.\n" +
 			"Definition NWINDOWVIOL := Eval vm_compute in count_if (fun c => negb (C06_holds c)) cases.\nPrint NWINDOWVIOL.\n",
 	}
 	cf.Cases = append(cf.Cases, "CHttp "+hx.List(caseOps))
